@@ -695,7 +695,12 @@ class Face3D(Base2DIn3D):
             tolerance: The precision to which the pole of inaccessibility
                 will be computed.
         """
-        return self.plane.xy_to_xyz(self.polygon2d.pole_of_inaccessibility(tolerance))
+        if self.has_holes:  # search among the boundary and hole outlines themselves
+            pole = self.boundary_polygon2d.pole_of_inaccessibility(
+                tolerance, self.hole_polygon2d)
+        else:
+            pole = self.polygon2d.pole_of_inaccessibility(tolerance)
+        return self.plane.xy_to_xyz(pole)
 
     def is_horizontal(self, tolerance):
         """Check whether a this face is horizontal within a given tolerance.
